@@ -45,6 +45,9 @@ type c34Scenario struct {
 	Tasks    []c34Task `json:"tasks"`
 	ReadBuf  int       `json:"read_buf"`
 	CancelMs int       `json:"cancel_ms,omitempty"` // engine B: HandshakeContext cancelled after this many ms (0 = background context)
+	// CancelAtIO (engine B): the client's HandshakeContext is cancelled by the application at the instant its k-th
+	// transport call has done its work and is about to return (a slow return); k may be the handshake's last I/O
+	CancelAtIO int `json:"cancel_at_io,omitempty"`
 	Renego   int       `json:"renegotiation,omitempty"` // client Config.Renegotiation (0 never, 1 once, 2 freely)
 	// Reframe (engine A, TLS 1.3): bit d set = a peer-side re-framer sits on direction d (0 = client→server): it
 	// re-emits the sender's application-epoch records under the same keys in another legal framing and injects up to
@@ -85,6 +88,9 @@ func genC34(seed uint64, tier string) any {
 	sc.Renego = r.Pick([]int{2, 1, 1})
 	if sc.Engine == "B" && r.Chance(1, 4) {
 		sc.CancelMs = []int{1, 5, 50, 500}[r.Intn(4)]
+	}
+	if sc.Engine == "B" && sc.CancelMs == 0 && r.Chance(1, 3) {
+		sc.CancelAtIO = r.Range(1, 12)
 	}
 	for side := 0; side < 2; side++ {
 		if r.Chance(1, 4) {
